@@ -8,6 +8,7 @@
 import Scico.Proofs.AdjointComplex
 import Scico.Proofs.AdjointTotal
 import Scico.Proofs.AdjointSlab
+import Scico.Proofs.AdjointSpectral
 
 namespace Scico.Props.C01
 open Scico.Adjoint Finset
@@ -267,6 +268,27 @@ theorem C01_xray3d_slab_no_offset_fails :
     ¬ IsAdj (Op.scatSlabNoOffset 1 2 2 2 (fun p => p) (fun p => clampIdx 2 p) (fun _ => (1 : K))) :=
   scatSlabNoOffset_not_isAdj
 
+/-! ### `CircularConvolve` as coded (transform domain) -/
+
+/-- `_adj` as coded, `ifftn(conj(h_dft)·fftn(y))`, is the adjoint of `_eval` as coded, `ifftn(h_dft·fftn(x))`, for EVERY
+    `h_dft` (transform of `h`, with `h_center` phases, or given with `h_is_dft`), whenever the inverse transform is a real
+    multiple of the conjugate transpose of the forward transform (`F`, `G` arbitrary matrices: any number of axes, any
+    normalisation) -/
+theorem C01_circ_dft_domain (n : Nat) (F G : Nat → Nat → K) (s : K) (hs : star s = s)
+    (hG : ∀ i < n, ∀ f < n, G i f = s * star (F f i)) (D : V K) : IsAdj (Op.spectral n F G D) :=
+  spectral_isAdj n F G s hs hG D
+
+/-- the 1-D DFT (`fft`: `ζ^(j f)`, `ifft`: `n⁻¹ ζ⁻¹^(i f)`) with a root on the unit circle is such a pair -/
+theorem C01_dft_pair (n : Nat) (ζ : K) (hζ : star ζ = ζ⁻¹) (D : V K) :
+    IsAdj (Op.spectral n (fun f j => ζ ^ (j * f)) (fun i f => (n : K)⁻¹ * ζ⁻¹ ^ (i * f)) D) :=
+  spectral_isAdj n _ _ (n : K)⁻¹ (star_natCast_inv n) (fun i _ f _ => by simpa [Nat.mul_comm] using dft_pair n ζ hζ i f) D
+
+/-- the real parts `_eval` / `_adj` take for a real output space (`self.real`) or a real input space keep an adjoint
+    pair adjoint in `Re⟪·,·⟫` -/
+theorem C01_circ_real_wrappers {A : Op ℂ} (hA : IsAdjRe A) :
+    IsAdjRe (Op.wrapRR creal A) ∧ IsAdjRe (Op.wrapRC creal A) :=
+  ⟨wrapRR_isAdjRe hA, wrapRC_isAdjRe hA⟩
+
 /-! ### non-vacuity -/
 
 example : JaxTransposeRC probeTransposeRC := probeTransposeRC_ok
@@ -336,5 +358,10 @@ example (r : Nat → Nat → ℝ) :
 -- slab hypotheses: 23 voxels in slabs of 10 need 3 slabs; all indices on a detector of 4 bins
 example : (23 : Nat) ≤ 3 * 10 ∧ ∀ p < 23, (fun _ => (1 : K)) p = 0 ∨ (fun p => p % 4) p < 4 :=
   ⟨by decide, fun p _ => Or.inr (Nat.mod_lt _ (by decide))⟩
+
+-- a root on the unit circle: ζ = i (4-point DFT); and an operator satisfying the hypothesis of the wrappers
+example : star Complex.I = Complex.I⁻¹ := by simp
+example (D : V ℂ) : IsAdjRe (Op.spectral 4 (fun f j => Complex.I ^ (j * f)) (fun i f => ((4 : ℕ) : ℂ)⁻¹ * Complex.I⁻¹ ^ (i * f)) D) :=
+  isAdjRe_of_isAdj (C01_dft_pair 4 Complex.I (by simp) D)
 
 end Scico.Props.C01
